@@ -685,7 +685,8 @@ class Interp:
         saved = (self.cur_module, self.cur_func)
         self.stack.append((fi, self.site(node) if self.cur_module else None))
         Effect._seq[0] += 1
-        self.calls.append((fi.short, self.chain(), Effect._seq[0]))
+        self.calls.append((fi.short, self.chain(), Effect._seq[0],
+                           len(state.kn.atoms)))
         self.cur_module, self.cur_func = fi.module, fi
         try:
             frame = Frame(self, fi, fi.module, fi.owner, env)
@@ -731,7 +732,9 @@ class Interp:
         summ = self.policy.summarise(self, fi, args, kwargs, state)
         if summ is not None:
             value, raises = summ
-            self.calls.append((fi.short + ' [summarised]', self.chain(), 0))
+            Effect._seq[0] += 1
+            self.calls.append((fi.short + ' [summarised]', self.chain(),
+                               Effect._seq[0], len(state.kn.atoms)))
             for et, why in raises:
                 n0 = len(self.pending)
                 self.raise_pending(state, et, node, why)
@@ -765,7 +768,7 @@ class Interp:
     def recursive_call(self, fi, args, kwargs, state, node):
         """A call that re-enters a function already being inlined: use the
         function's inductive summary (fixpoint computed by codec.py)."""
-        self.calls.append((fi.short + ' [recursive]', self.chain(), 0))
+        self.calls.append((fi.short + ' [recursive]', self.chain(), 0, 0))
         self.rec_hits.add(fi.qualname)
         self.rec_calls.append((fi, list(args), self.chain(), self.site(node),
                                state.kn.copy()))
@@ -885,8 +888,20 @@ class Interp:
             r1, r2 = o1.items[n:], o2.items[n:]
             items = list(o1.items[:n])
             if r1 or r2:
-                items.append(Sym('opt', g, tuple(_as_term(x) for x in r1),
-                                 tuple(_as_term(x) for x in r2)))
+                t1 = tuple(_as_term(x) for x in r1)
+                t2 = tuple(_as_term(x) for x in r2)
+                gg = g
+                # opt(g, (opt(h, A, ())), ()) = opt(g and h, A, ())
+                if len(t1) == 1 and not t2 and isinstance(t1[0], Sym) and \
+                        t1[0].op == 'opt' and t1[0].args[2] == ():
+                    gg, t1 = T.and_(g, t1[0].args[0]), t1[0].args[1]
+                elif len(t2) == 1 and not t1 and isinstance(t2[0], Sym) \
+                        and t2[0].op == 'opt' and t2[0].args[2] == ():
+                    gg, t1, t2 = T.and_(T.not_(g), t2[0].args[0]), \
+                        t2[0].args[1], ()
+                elif not t1 and t2:
+                    gg, t1, t2 = T.not_(g), t2, ()
+                items.append(Sym('opt', gg, t1, t2))
             return ListObj(items, o1.more or o2.more, o1.shared, o1.origin)
         if isinstance(o1, DictObj) and isinstance(o2, DictObj):
             keys = []
@@ -1360,7 +1375,7 @@ class Interp:
         self.loop_stack.append((loop_id, self.cur_func, len(self.stack)))
         try:
             info = self._loop_body_once(st, hstate.fork(), frame, iterable,
-                                        loop_id, outs, entry)
+                                        loop_id, outs, entry, pre)
         finally:
             self.loop_stack.pop()
         # exit state
@@ -1387,7 +1402,7 @@ class Interp:
         return outs
 
     def _loop_body_once(self, st, s, frame, iterable, loop_id, outs=None,
-                        entry=None):
+                        entry=None, pre=None):
         info = {'breaks': [], 'nonneg_incs': {}, 'id': loop_id, 'all': []}
         feasible = True
         test_term = None
@@ -1426,6 +1441,7 @@ class Interp:
                 'raises': [o for o in res if o.kind == 'raise'],
                 'returns': [o for o in res if o.kind == 'return'],
                 'entry': entry,
+                'pre': dict(pre or {}),
                 'enclosing': list(self.loop_stack[:-1]),
                 'depth': len(self.stack),
             })
